@@ -837,9 +837,20 @@ class Mailbox:
                         imap_cmd.msg_set, imap_cmd.uid_command
                     )
                 except Bad as exc:
-                    imap_cmd.error = exc
-                    imap_cmd.ready.set()
-                    continue
+                    # Unless a command that changes the list of messages
+                    # (an EXPUNGE for example) is half way through: then
+                    # what the message set means is only known once it is
+                    # done, and it is resolved again below.
+                    #
+                    self._cleanup_executing_tasks()
+                    if not any(
+                        x.command in CONFLICTING_COMMANDS
+                        for x in self.executing_tasks
+                    ):
+                        imap_cmd.error = exc
+                        imap_cmd.ready.set()
+                        continue
+                    imap_cmd.msg_set_as_set = set()
 
                 # Block until the new IMAP command would not conflict with any
                 # of the currently executing IMAP commands.
